@@ -228,12 +228,37 @@ def play(ctx, plan, base_dir, work, hist, ref_values, tag):
     return problems
 
 
+def mutation_log(base_dir, work, src_of, tag, prefix=()):
+    """the mutations (index, operation, argument) a command issues after the given prefix of commands (tuples = killed commands)"""
+    d = os.path.join(work, tag)
+    shutil.copytree(base_dir, d)
+    root = os.path.join(d, "o.vcz")
+    for s in prefix:
+        if isinstance(s, tuple):
+            run_cmd(s[0].format(root=root), crash=s[1], root=root)
+        else:
+            run_cmd(s.format(root=root))
+    log = os.path.join(d, "audit.log")
+    run_cmd(src_of.format(root=root), log=log, root=root)
+    out = []
+    if os.path.exists(log):
+        for line in open(log):
+            f = line.rstrip("\n").split("\t")
+            if f[0].isdigit():
+                out.append((int(f[0]), f[1], f[2].replace(root, "")))
+    shutil.rmtree(d, ignore_errors=True)
+    return out
+
+
 def count_mutations(base_dir, work, src_of, tag, prefix=()):
     d = os.path.join(work, tag)
     shutil.copytree(base_dir, d)
     root = os.path.join(d, "o.vcz")
     for s in prefix:
-        run_cmd(s.format(root=root))
+        if isinstance(s, tuple):
+            run_cmd(s[0].format(root=root), crash=s[1], root=root)      # a killed command of the prefix
+        else:
+            run_cmd(s.format(root=root))
     log = os.path.join(d, "audit.log")
     run_cmd(src_of.format(root=root), log=log, root=root)
     n = sum(1 for _ in open(log)) if os.path.exists(log) else 0
@@ -287,6 +312,20 @@ def run(ctx):
     for k in pts(n_fin, 14):
         t = r.choice(tears)
         hists.append(allp + [((2,), crash(k, t)), ((2,), None)])
+    # two kills in a row: a re-run killed inside the directory swap (after p<j> was moved aside), then the NEXT attempt of the same
+    # partition killed too -- in particular while it removes the moved-aside copy, p<j> still missing -- then finalise (which must
+    # refuse) and the recovery
+    rerun_log = mutation_log(base, ctx.work, P % 1, "cnt4", prefix=[P % j for j in range(nparts)])
+    import re
+    swap = [i for i, op, arg in rerun_log if op == "os.rename" and re.search(r"partitions/(wip_p|p)\d+ -> \S*partitions/(stale_p|p)\d+$", arg)]   # p1 -> stale_p1, wip_p1 -> p1
+    ctx.distribution["swap_window"] = swap
+    for k1 in sorted(set(swap + [x + 1 for x in swap])):
+        log2 = mutation_log(base, ctx.work, P % 1, f"cnt5_{k1}", prefix=[P % j for j in range(nparts)] + [(P % 1, crash(k1, None))])
+        inside = [i for i, op, arg in log2 if "stale_p" in arg]          # the removal of the moved-aside copy, file by file
+        other = [i for i, op, arg in log2 if "stale_p" not in arg]
+        pick = (inside + other[-6:]) if not ctx.quick else sorted(set(r.sample(inside, min(len(inside), 6)) + inside[:1] + inside[-2:] + other[-2:]))
+        for k2 in pick:
+            hists.append(allp + [((1, 1), crash(k1, None)), ((1, 1), crash(k2, r.choice(tears))), ((2,), None)])
     for _ in range(ctx.n(24, 300)):
         h = []
         kills = 0
